@@ -19,7 +19,7 @@ def to_real_data(d: Any):
         return NoDataType()
     if isinstance(d, list):
         return FloatDataCollection.from_list([FloatDataType(float(x)) for x in d])
-    return FloatDataType(float(d))
+    return FloatDataType(d if isinstance(d, float) else float(d))  # keeps float subclasses (hostile values)
 
 
 import re as _re
